@@ -115,6 +115,48 @@ def programs(tier):
     ], Unit))
     out.append({"prog": p, "family": "c17", "ident": "c17:other-package", "extra_files": {"Lib/lib.gom": libtext}})
 
+    # ---- an implementation is visible only through imports: Main reaches DataPkg::S (which implements TraitPkg::Show in DataPkg) as a
+    # field of a struct of MakePkg; coercing it to dyn / calling the trait on it needs `import DataPkg` in Main
+    trait_pkg = "package TraitPkg\n\ntrait Show {\n    fn show(Self) -> string;\n}\n"
+    data_pkg = ("package DataPkg\nimport TraitPkg\n\nstruct S { n: int32 }\n\nimpl TraitPkg::Show for S {\n    fn show(self: S) -> string {\n"
+                "        \"S(\" + int32_to_string(self.n) + \")\"\n    }\n}\n")
+    make_pkg = ("package MakePkg\nimport DataPkg\n\nstruct Parcel { item: DataPkg::S, tag: string }\n\nfn parcel(n: int32) -> Parcel {\n"
+                "    Parcel { item: DataPkg::S { n: n }, tag: \"p\" }\n}\nfn item_of(p: Parcel) -> DataPkg::S { p.item }\n")
+    uses = {"dyn-coercion": "    let d: dyn TraitPkg::Show = item;\n    let _ = string_println(tag + TraitPkg::Show::show(d));\n",
+            "concrete-call": "    let _ = string_println(tag + TraitPkg::Show::show(item));\n",
+            "dyn-argument": "    let _ = string_println(tag + via(item));\n"}
+    gets = {"struct-pattern": "    let MakePkg::Parcel { item: item, tag: tag } = p;\n",
+            # (the type of a field read / a call result is not known yet where the coercion is checked: annotated, which needs the import)
+            "field-read": "    let item: DataPkg::S = p.item;\n    let tag = p.tag;\n",
+            "function-result": "    let item: DataPkg::S = MakePkg::item_of(p);\n    let tag = \"p\";\n"}
+    for imported in (False, True):
+        for uname, use in uses.items():
+            for gname, get in gets.items():
+                if not imported and gname != "struct-pattern":
+                    continue          # the annotation would itself name the package that is not imported
+                text = ("package Main\nimport TraitPkg\nimport MakePkg\n" + ("import DataPkg\n" if imported else "") + "\n"
+                        "fn via(d: dyn TraitPkg::Show) -> string { TraitPkg::Show::show(d) }\n\nfn main() -> unit {\n"
+                        "    let p: MakePkg::Parcel = MakePkg::parcel(3);\n" + get + use + "    ()\n}\n")
+                tp = TextProgram(f"c17_vis_{int(imported)}_{uname}_{gname}".replace("-", "_"), text, ["pS(3)"])
+                out.append({"prog": tp, "family": "c17:impl-visibility", "ident": f"c17:impl-visibility:{'imported' if imported else 'not-imported'}:{uname}:{gname}",
+                            "extra_files": {"TraitPkg/lib.gom": trait_pkg, "DataPkg/lib.gom": data_pkg, "MakePkg/lib.gom": make_pkg},
+                            "expect": "accept" if imported else "reject"})
+    # ---- two implementations of one trait for one type in one package, under every spelling of the trait's name (plain, qualified
+    # by the package itself), in both orders: always rejected - never "the later one wins"
+    for first in ("Show", "Main::Show"):
+        for second in ("Show", "Main::Show"):
+            text = ("package Main\n\nstruct P { x: int32 }\n\ntrait Show {\n    fn show(Self) -> string;\n}\n\n"
+                    f"impl {first} for P {{\n    fn show(self: P) -> string {{ \"first:\" + int32_to_string(self.x) }}\n}}\n\n"
+                    f"impl {second} for P {{\n    fn show(self: P) -> string {{ \"second:\" + int32_to_string(self.x) }}\n}}\n\n"
+                    "fn main() -> unit {\n    let p = P { x: 1 };\n    let _ = string_println(Show::show(p));\n    ()\n}\n")
+            out.append({"prog": TextProgram(f"c17_dup_{first}_{second}".replace("::", "_"), text, []), "family": "c17:duplicate-impl",
+                        "ident": f"c17:duplicate-impl:{first}+{second}", "expect": "reject"})
+    for only in ("Show", "Main::Show"):
+        text = ("package Main\n\nstruct P { x: int32 }\n\ntrait Show {\n    fn show(Self) -> string;\n}\n\n"
+                f"impl {only} for P {{\n    fn show(self: P) -> string {{ \"only:\" + int32_to_string(self.x) }}\n}}\n\n"
+                "fn main() -> unit {\n    let p = P { x: 1 };\n    let d: dyn Show = p;\n    let _ = string_println(Show::show(p));\n    let _ = string_println(Show::show(d));\n    ()\n}\n")
+        out.append({"prog": TextProgram(f"c17_single_{only}".replace("::", "_"), text, ["only:1", "only:1"]), "family": "c17:duplicate-impl",
+                    "ident": f"c17:single-impl:{only}", "expect": "accept"})
     # ---- every call form where the result is not used: the implementation must still run (once per evaluation)
     CN = TAdt("Counter")
 
